@@ -296,6 +296,10 @@ func (cr *checkRun) writeReplay(name string, o *Obligation, reason string) (stri
 		"reason":     reason,
 	}
 	found := false
+	fn := name
+	if k := strings.Index(name, "/"); k >= 0 {
+		fn = name[:k]
+	}
 	if o != nil {
 		rep["where"] = o.Where
 		rep["clause"] = o.Human
@@ -304,18 +308,19 @@ func (cr *checkRun) writeReplay(name string, o *Obligation, reason string) (stri
 		if o.Model != "" {
 			rep["solver_output"] = firstLines(o.Model, 60)
 		}
-		fn := o.Fn
-		if oracle, ok := cr.spec.Oracles[fn]; ok {
-			input, detail, ok2 := cr.findFailingInput(oracle, o)
-			rep["oracle"] = oracle
-			if ok2 {
-				found = true
-				rep["failing_input"] = json.RawMessage(input)
-				rep["observed"] = detail
-				rep["replay_cmd"] = fmt.Sprintf("bin/gfverify replay %s", path)
-			} else {
-				rep["search"] = detail
-			}
+		fn = o.Fn
+	}
+	// replay on the real code: also when the obligation could not even be generated (function left the subset)
+	if oracle, ok := cr.spec.Oracles[fn]; ok {
+		input, detail, ok2 := cr.findFailingInput(oracle, o)
+		rep["oracle"] = oracle
+		if ok2 {
+			found = true
+			rep["failing_input"] = json.RawMessage(input)
+			rep["observed"] = detail
+			rep["replay_cmd"] = fmt.Sprintf("bin/gfverify replay %s", path)
+		} else {
+			rep["search"] = detail
 		}
 	}
 	b, _ := json.MarshalIndent(rep, "", " ")
@@ -529,6 +534,7 @@ func cmdLock(args []string) {
 	}
 	b, _ := json.MarshalIndent(lock, "", " ")
 	os.WriteFile(filepath.Join(*vdir, "obligations.lock.json"), b, 0o644)
+	writeLocals(g, *vdir)
 }
 
 var reContractDerived = regexp.MustCompile(`^(post\.|assert:|vacuity|loop\d+\.[^#]*\.(init|preserve)$|loop\d+\.decreases|lemma\.)`)
@@ -543,4 +549,26 @@ func siteDerived(name string) bool {
 		return false
 	}
 	return !reContractDerived.MatchString(k)
+}
+
+// writeLocals records the variables each contracted function declares (name and type, in source order), so that a later
+// pure rename can be followed by the contracts (Global.renameMap).
+func writeLocals(g *Global, vdir string) {
+	locals := map[string][]string{}
+	for key := range g.cs.Funcs {
+		if fi := g.funcs[key]; fi != nil {
+			locals[key] = g.declStrings(fi)
+		}
+	}
+	lb, _ := json.MarshalIndent(locals, "", " ")
+	os.WriteFile(filepath.Join(vdir, "locals.lock.json"), lb, 0o644)
+}
+
+func cmdLocals(args []string) {
+	g, err := loadAll(envOr("GFV_REPO", "/repo"), envOr("GFV_VERIF", "/verif"))
+	if err != nil {
+		fmt.Fprintln(os.Stderr, err)
+		os.Exit(2)
+	}
+	writeLocals(g, envOr("GFV_VERIF", "/verif"))
 }
